@@ -169,9 +169,102 @@ def seed(rc):
                     rc.fail(fn, c, f"{fn.qual} draws from a generator that np.random.seed(seed) does not control: {d}", construct=f"foreign generator {d}")
 
 
+def _seq_tag(e, env):
+    """order of a sequence relative to a CPD: ('fwd', c) = order of c.variables[1:] (also c.cardinality[1:]); ('rev', c) = order of c.get_evidence() (the reverse);
+    ('param', p) = whatever the caller passes for parameter p; None = unknown"""
+    if isinstance(e, ast.Name):
+        return env.get(e.id)
+    if isinstance(e, ast.Subscript) and isinstance(e.value, ast.Attribute) and e.value.attr in ("variables", "cardinality") and isinstance(e.slice, ast.Slice) and isinstance(e.value.value, ast.Name):
+        sl = e.slice
+        lo, hi, stp = (norm(x) if x is not None else None for x in (sl.lower, sl.upper, sl.step))
+        if (lo, hi, stp) == ("1", None, None):
+            return ("fwd", e.value.value.id)
+        if (lo, hi, stp) == (None, "0", "-1"):
+            return ("rev", e.value.value.id)
+        return None
+    if isinstance(e, ast.Call) and call_name(e) == "get_evidence" and isinstance(e.func, ast.Attribute) and isinstance(e.func.value, ast.Name) and not e.args:
+        return ("rev", e.func.value.id)
+    if isinstance(e, (ast.ListComp, ast.GeneratorExp)) and len(e.generators) == 1 and not e.generators[0].ifs:
+        return _seq_tag(e.generators[0].iter, env)
+    if isinstance(e, ast.Call) and call_name(e) in ("vstack", "stack", "array", "asarray", "list", "tuple", "astype", "to_numpy") :
+        if call_name(e) == "astype" and isinstance(e.func, ast.Attribute):
+            return _seq_tag(e.func.value, env)
+        return _seq_tag(e.args[0], env) if e.args else None
+    if isinstance(e, ast.Call) and call_name(e) == "reversed" and e.args:
+        t = _seq_tag(e.args[0], env)
+        return ({"fwd": "rev", "rev": "fwd"}.get(t[0], t[0]), t[1]) if t and t[0] in ("fwd", "rev") else None
+    return None
+
+
+def _order_typing(rc, classes):
+    """Two sequences that are paired position by position (zip) must follow the same order.  A CPD offers two orders of its parents — `variables[1:]` /
+    `cardinality[1:]` (declared order) and `get_evidence()` (the reverse) — and both are in use in the samplers; a helper that zips one of them with a sequence built
+    from a parameter fixes the order its callers must pass."""
+    methods = {}
+    for ci in classes:
+        for mname, m in ci.methods.items():
+            methods.setdefault(mname, m)
+    needs = {}   # method -> [(param p, kind, cpd param, zip node)]
+    n_zip = 0
+    n_tagged = 0
+    envs = {}
+    for mname, m in methods.items():
+        env = {prm: ("param", prm) for prm in m.params}
+        for st in walk_no_nested(m.node):
+            if isinstance(st, ast.Assign) and len(st.targets) == 1 and isinstance(st.targets[0], ast.Name):
+                t = _seq_tag(st.value, env)
+                if t is not None:
+                    env[st.targets[0].id] = t
+                    n_tagged += 1
+                elif st.targets[0].id in env and env[st.targets[0].id][0] != "param":
+                    del env[st.targets[0].id]
+        envs[mname] = env
+        for c in ast.walk(m.node):
+            if isinstance(c, ast.Call) and isinstance(c.func, ast.Name) and c.func.id == "zip" and len(c.args) >= 2:
+                tags = [_seq_tag(a, env) for a in c.args]
+                known = [(a, t) for a, t in zip(c.args, tags) if t is not None]
+                if len(known) < 2:
+                    continue
+                n_zip += 1
+                conc = [(a, t) for a, t in known if t[0] in ("fwd", "rev")]
+                for (a1, t1) in conc:
+                    for (a2, t2) in conc:
+                        if a1 is not a2 and t1[1] == t2[1] and t1[0] != t2[0] and id(a1) < id(a2):
+                            rc.fail(m, c, f"{m.qual}: `{norm(c, 70)}` pairs `{norm(a1, 30)}` (declared parent order of {t1[1]}) with `{norm(a2, 30)}` (the reverse order)",
+                                    construct=f"{m.qual} zip of opposite parent orders")
+                for (a1, t1) in conc:
+                    for (a2, t2) in known:
+                        if t2[0] == "param" and env.get(t1[1]) == ("param", t1[1]):
+                            needs.setdefault(mname, []).append((t2[1], t1[0], t1[1], c))
+    n_calls = 0
+    for mname, m in methods.items():
+        env = envs[mname]
+        for c in ast.walk(m.node):
+            if not (isinstance(c, ast.Call) and isinstance(c.func, ast.Attribute) and c.func.attr in needs and c.func.attr in methods):
+                continue
+            callee = methods[c.func.attr]
+            ps = [x for x in callee.params if x not in ("self", "cls")]
+            bound = dict(zip(ps, c.args))
+            bound.update({k.arg: k.value for k in c.keywords if k.arg})
+            for (pp, kind, cpdp, zp) in needs[c.func.attr]:
+                if pp not in bound or cpdp not in bound or not isinstance(bound[cpdp], ast.Name):
+                    continue
+                n_calls += 1
+                t = _seq_tag(bound[pp], env)
+                rc.ob(f"{m.qual} -> {callee.qual}({pp}={norm(bound[pp], 30)}): order {t}; the helper pairs it with the {kind!r} order of its `{cpdp}`")
+                if t is not None and t[0] in ("fwd", "rev") and t[1] == bound[cpdp].id and t[0] != kind:
+                    rc.fail(m, c, f"{m.qual} passes `{norm(bound[pp], 40)}` ({'reverse' if t[0] == 'rev' else 'declared'} parent order) to {callee.qual}, which pairs that argument "
+                            f"position by position with `{norm(zp, 50)}` ({'reverse' if kind == 'rev' else 'declared'} order): cardinalities / axes are attached to the wrong parents",
+                            construct=f"{m.qual} -> {callee.name} parent order")
+    rc.ob(f"order typing over the samplers: {n_tagged} parent-ordered sequence(s), {n_zip} positional pairing(s) between them, {n_calls} helper call(s) checked")
+    if n_tagged < 2:
+        raise AnalysisError(f"order typing: expected the parent lists of forward and likelihood-weighted sampling, found {n_tagged}")
+
+
 @rule("C07.pairing", "the parent list ordering the stacked parent samples is the one given to the reduce-map builder; reduce maps index CPD axes by name", floor=4)
 def pairing(rc):
     repo = rc.repo
+    _order_typing(rc, [repo.cls(SP, "BayesianModelSampling"), repo.cls(SB, "BayesianModelInference")])
     for q in ("BayesianModelSampling.forward_sample", "BayesianModelSampling.likelihood_weighted_sample"):
         f = repo.func(SP, q)
         stacks = [c for c in repo.calls_in(f) if call_name(c) == "vstack"]
